@@ -504,12 +504,25 @@ def run_impl(case, pid):
             v = _View(env, state)
             return 4 * (len(v.live) + len(v.fin) + sum(len(x) for x in v.snaps.values())) + 20
 
-        def one_run(state, phase, cut, baseline=None, label=None, transient=False):
-            """Run `phase` on `state` (mutated) with the given cut; record obs + monitor."""
+        def one_run(state, phase, cut, baseline=None, label=None, transient=False, read_fault=None, full_writes=None):
+            """Run `phase` on `state` (mutated) with the given cut; record obs + monitor.
+            `read_fault`: the read of that index fails once with a transient error instead; to the model this
+            is a stop after the writes applied so far."""
             before = _View(env, state)
             state.arm(cut, budget(state), transient)
+            if read_fault is not None:
+                state.read_fault = None
+                state.reads = 0
+                before = _View(env, state)
+                state.arm_read(read_fault)
             st = _exec(env, state, phase)
+            state.read_fault = None
             writes = state.writes
+            if read_fault is not None:
+                cut = writes if st == 'cut' else None
+                if st == 'cut' and full_writes is not None and writes >= full_writes:
+                    # the read that failed came after the last write: the tree is the final one
+                    st, cut = 'ok', None
             if transient and st == 'cut':
                 # writes applied after the failed one (by finally / except blocks): none are expected
                 # from an archiver that simply stops; they are part of the observed state and count
@@ -603,6 +616,19 @@ def run_impl(case, pid):
                         stats['transient'] = stats.get('transient', 0) + 1
                         if st2 != 'cut':
                             run.tags.add('transient-not-stopping')
+                # a transient READ failure (connection loss while listing / fetching) at a few points of the run:
+                # the archiver stops there; nothing may be archived on the strength of a list it could not read
+                probe_r = base.clone()
+                probe_r.arm(None, budget(base))
+                probe_r.arm_read(None)
+                if _exec(env, probe_r, phase) == 'ok':
+                    nreads = probe_r.reads
+                    picks = sorted(set([0, 1, nreads // 2, nreads - 1]) & set(range(nreads)))[:4]
+                    for r_ in picks:
+                        cur3 = base.clone()
+                        run.op('restore', 'ok')
+                        st3, _b3, _a3 = one_run(cur3, phase, None, read_fault=r_, full_writes=total)
+                        stats['read-faults'] = stats.get('read-faults', 0) + 1
                 final = base.clone()
                 run.op('restore', 'ok')
                 st, before, after = one_run(final, phase, None)
